@@ -3,8 +3,7 @@ from core import report, paths
 from core.report import Rule
 from core.sm9 import Repo, U256
 from core.terms import strip, alts, walk, show
-from core.lensim import OKISH, ERRISH
-from . import shared, convert, profile, layout
+from . import shared, conv2 as convert, profile
 from .shared import loc_of
 
 R1_64 = range(1, 65)
@@ -22,6 +21,8 @@ SPEC = {
     "crate::fields::fp::Fr::from_slice": {"lens": {32}, "prefix": None},
     "crate::fields::fp::Fq::from_slice": {"lens": {32}, "prefix": None},
 }
+VALUE_ENTRIES = {"crate::Fr::from_slice": "crate::fields::fp::Fr", "crate::Fq::from_slice": "crate::fields::fp::Fq",
+                 "crate::fields::fp::Fr::from_slice": "crate::fields::fp::Fr", "crate::fields::fp::Fq::from_slice": "crate::fields::fp::Fq"}
 TOTAL_EXTRA = [
     "crate::Fr::interpret", "crate::Fq::interpret", "crate::fields::fp::Fr::interpret", "crate::fields::fp::Fq::interpret",
     "crate::Fr::to_slice", "crate::Fq::to_slice", "crate::fields::fp::Fr::to_slice", "crate::fields::fp::Fq::to_slice",
@@ -43,128 +44,6 @@ def rule_siblings(results):
         diff = [k for k in sorted(set(ra) | set(rb), key=str)
                 if (ra.get(k) and frozenset(ra[k].variants), bool(ra.get(k) and ra[k].panics)) != (rb.get(k) and frozenset(rb[k].variants), bool(rb.get(k) and rb[k].panics))]
         R.check(not diff, "C13:sibling:%s" % a, "%s and %s disagree for abstract inputs %s" % (a, b, diff[:5]), sample={"pair": [a, b], "points": len(ra)})
-    return R.finish()
-
-
-def rule_padding(repo):
-    """Short inputs are right-aligned (big-endian zero padding): the copy goes to buf[N - len ..] of a zeroed [u8; N]."""
-    F = repo.F
-    R = Rule("R-PAD", "shorter inputs are copied to buf[N-len..] of a zero-filled N-byte buffer (big-endian left padding)", floor=5)
-    for path in ("crate::Fr::from_slice", "crate::Fq::from_slice", "crate::fields::fp::Fr::from_hash"):
-        b = F.bodies.get(path)
-        if b is None:
-            R.fail_closed("C13:pad:%s:anchor" % path, "%s not found" % path)
-            continue
-        tb = repo.tb(b)
-        for bb, t in b.calls():
-            if (t.get("fn") or {}).get("name") != "copy_from_slice":
-                continue
-            R.instance()
-            dst, src = tb.call_args(bb)
-            d = strip(dst)
-            ok = False
-            why = show(d, maxdepth=4)[:200]
-            if d[0] == "call" and d[1].name == "index_mut":
-                buf = strip(d[2][0])
-                rng = strip(d[2][1])
-                zero = buf[0] == "repeat" and strip(buf[1]) == ("const", {"ty": "u8", "int": 0}) or (buf[0] == "repeat" and buf[1][0] == "const" and buf[1][1].get("int") == 0)
-                if rng[0] == "agg" and rng[1] == "core::ops::RangeFrom" and zero:
-                    st = rng[3][0]
-                    if st[0] == "field" and st[1][0] == "binop" and st[1][1].startswith("Sub"):
-                        a, c = st[1][2], st[1][3]
-                        n = int(buf[2])
-                        is_len = c[0] == "call" and c[1].name == "len" and strip(c[2][0]) in (("param", 1), ("init", ("deref", 1)))
-                        ok = a[0] == "const" and int(a[1].get("int", -1)) == n and is_len and strip(src) in (("param", 1), ("init", ("deref", 1)))
-            R.check(ok, "C13:pad:%s" % path, "padding copy in %s is not buf[N-len..] ← input: %s" % (path, why), loc_of(b, bb), path,
-                    sample={"fn": path, "dest": why})
-    return R.finish()
-
-
-def rule_hash(repo):
-    F = repo.F
-    R = Rule("R-HASH", "from_hash = (U512(h) mod canonical(−1)) + 1: divisor provenance, +1 closure, None beyond 64 bytes", floor=3)
-    b = F.bodies.get("crate::fields::fp::Fr::from_hash")
-    if b is None:
-        R.fail_closed("C13:hash:anchor", "fields::Fr::from_hash not found")
-        return R.finish()
-    tb = repo.tb(b)
-    rv = tb.return_value()
-    divs = [s for s in walk(rv) if s[0] == "call" and s[1].name == "divrem"]
-    R.instance()
-    ok = False
-    desc = ""
-    if len(divs) >= 1:
-        dv = strip(divs[0][2][1])
-        desc = show(dv, maxdepth=5)[:200]
-        if dv[0] == "call" and dv[1].name == "from" and "From<crate::fields::fp::Fr> for crate::u256::U256" in dv[1].i:
-            x = strip(dv[2][0])
-            if x[0] == "call" and x[1].name == "neg" and x[1].get("trait") == "core::ops::Neg":
-                y = strip(x[2][0])
-                ok = y[0] == "call" and y[1].name == "one" and "fp::Fr" in y[1].i
-    R.check(ok, "C13:hash:divisor", "divisor of from_hash is not canonical(−Fr::one()) = r−1: %s" % desc, b.file_line(), b.rec["path"], sample={"divisor": desc})
-    # remainder (field 1) → Fr::new → + one
-    R.instance()
-    rem_ok = any(s[0] == "field" and s[2] == 1 and strip(s[1])[0] == "call" and strip(s[1])[1].name == "divrem" for s in walk(rv))
-    news = [s for s in walk(rv) if s[0] == "call" and s[1].d == repo.fp_types()["crate::fields::fp::Fr"]["new"].rec["path"]]
-    clos = [s for s in walk(rv) if s[0] == "agg" and isinstance(s[1], tuple) and s[1][0] == "closure"]
-    plus_one = False
-    for c in clos:
-        cb = F.bodies.get(c[1][1])
-        if cb:
-            crv = repo.tb(cb).return_value()
-            if crv[0] == "call" and crv[1].name == "add" and {strip(a)[0] for a in crv[2]} == {"param", "call"}:
-                other = [strip(a) for a in crv[2] if strip(a)[0] == "call"][0]
-                plus_one = other[1].name == "one" and "fp::Fr" in other[1].i
-    R.check(rem_ok and news and plus_one, "C13:hash:shape", "from_hash is not Fr::new(remainder).map(|f| f + one): remainder=%s new=%s plus_one=%s" % (rem_ok, bool(news), plus_one),
-            b.file_line(), b.rec["path"], sample={"remainder_used": rem_ok, "plus_one_closure": plus_one})
-    # every alternative that can be Some is (value mod (r−1)) + 1: the remainder itself, or a raw value on the true edge of `value < r−1`
-    R.instance()
-    bad = []
-    n_alts = 0
-    fr_new = repo.fp_types()["crate::fields::fp::Fr"]["new"].rec["path"]
-    for a in alts(rv):
-        if a[0] == "agg" and a[2] == "None":
-            continue
-        if a[0] == "call" and a[1].name in ("from_residual",):
-            continue
-        n_alts += 1
-        ok_alt = False
-        if a[0] == "call" and a[1].name == "map" and strip(a[2][0])[0] == "call" and strip(a[2][0])[1].d == fr_new:
-            v = strip(strip(a[2][0])[2][0])
-            if v[0] == "field" and v[2] == 1 and strip(v[1])[0] == "call" and strip(v[1])[1].name == "divrem":
-                ok_alt = True
-            else:
-                # guarded raw value
-                site = a[3]
-                for bi in sorted(b.reachable()):
-                    term = b.blocks[bi]["term"]
-                    if term["k"] != "switch":
-                        continue
-                    d = tb.operand(term["discr"], bi, len(b.blocks[bi]["stmts"]))
-                    if d[0] == "call" and d[1].name == "lt" and len(d[2]) == 2 and strip(d[2][0]) == v:
-                        dv2 = strip(d[2][1])
-                        is_div = dv2[0] == "call" and dv2[1].name == "from" and strip(dv2[2][0])[0] == "call" and strip(dv2[2][0])[1].name == "neg"
-                        tt = term["otherwise"] if any(int(x) == 0 for x, _ in term["arms"]) else None
-                        if is_div and tt is not None and b.pred()[tt] == [bi] and b.dominates(tt, site):
-                            ok_alt = True
-        if not ok_alt:
-            bad.append(show(a, maxdepth=4)[:160])
-    R.check(not bad and n_alts >= 1, "C13:hash:every-result-is-remainder-plus-one", "a result of from_hash is not (remainder by r−1)+1 nor a value proven < r−1: %s" % bad[:2], b.file_line(), b.rec["path"],
-            sample={"some_alternatives": n_alts, "all_remainder_plus_one": not bad})
-    # source of the dividend: the padded 64-byte buffer interpreted as U512
-    R.instance()
-    src = strip(divs[0][2][0]) if divs else ("unknown",)
-    R.check(src[0] == "call" and src[1].d == "crate::u512::U512::interpret", "C13:hash:dividend", "dividend is not U512::interpret(buffer): %s" % show(src, maxdepth=3)[:120],
-            b.file_line(), b.rec["path"], sample={"dividend": show(src, maxdepth=2)[:100]})
-    # public wrapper delegates
-    w = F.bodies.get("crate::Fr::from_hash")
-    R.instance()
-    if w is None:
-        R.fail_closed("C13:hash:wrapper", "crate::Fr::from_hash not found")
-    else:
-        wrv = repo.tb(w).return_value()
-        ok = any(s[0] == "call" and s[1].d == "crate::fields::fp::Fr::from_hash" and strip(s[2][0]) in (("param", 1), ("init", ("deref", 1))) for s in walk(wrv))
-        R.check(ok, "C13:hash:wrapper", "Fr::from_hash does not delegate to fields::Fr::from_hash on its input", w.file_line(), w.rec["path"], sample={"wrapper": show(wrv, maxdepth=3)[:160]})
     return R.finish()
 
 
@@ -295,73 +174,28 @@ def rule_setbit(repo):
     return R.finish()
 
 
-def rule_be_layout(repo, ls):
-    """U256/U512::from_slice read limb j from bytes [8*(n-1-j), +8) with BigEndian — from the unrolled literal iterator."""
+def rule_canon_conv(repo):
+    """The Montgomery→canonical conversion itself: U256::from(x) = x.0 · 1 · R⁻¹ mod the type's own modulus."""
     F = repo.F
-    R = Rule("R-BE-LAYOUT", "big-endian limb layout of U256/U512::from_slice: limb j ← BigEndian::read_u64(&s[8·(n−1−j)..])", floor=2, exhaustive=True)
-    for path, n in (("crate::u256::U256::from_slice", 4), ("crate::u512::U512::from_slice", 8)):
-        b = F.bodies.get(path)
-        R.instance()
-        if b is None:
-            R.fail_closed("C13:be:%s:anchor" % path, "%s not found" % path)
-            continue
-        tb = repo.tb(b)
-        info = ls.iterator_info(b, tb)
-        elems = [e for (_, e) in info.values() if e is not None]
-        be = any("byteorder::BigEndian" in ((t.get("fn") or {}).get("res_inst") or (t.get("fn") or {}).get("inst") or "") and t["fn"]["name"] == "read_u64" for _, t in b.calls())
-        ok = len(elems) == 1 and sorted(elems[0]) == sorted((j, 8 * (n - 1 - j)) for j in range(n)) and be
-        R.check(ok, "C13:be:%s" % path, "%s: (limb, offset) pairs %s / BigEndian=%s" % (path, elems[:1], be), b.file_line(), path,
-                sample={"fn": path, "pairs": elems[0] if elems else None, "byte_order": "BigEndian" if be else "?"})
-    return R.finish()
-
-
-def rule_canon_out(repo):
-    F = repo.F
-    R = Rule("R-CANON-OUT", "to_slice / to_big_endian / is_even serialise the canonical value (through the Montgomery→canonical conversion), never the raw limbs", floor=4)
+    R = Rule("R-CANON-CONV", "U256::from(field element) is the Montgomery multiplication of the raw limbs by the integer one modulo the type's own modulus", floor=2)
     fp = repo.fp_types()
+    closed, _, _ = shared.classify_u256(repo)
     for ap in fp:
-        b = F.bodies.get(ap + "::to_slice")
-        R.instance()
-        if b is None:
-            R.fail_closed("C13:canon:%s" % ap, "%s::to_slice not found" % ap)
-            continue
-        tb = repo.tb(b)
-        ok = False
-        for bb, t in b.calls():
-            if (t.get("fn") or {}).get("name") == "to_big_endian":
-                ok = shared.is_canon_conv(tb.call_args(bb)[0], ap) == ("param", 1)
-        R.check(ok, "C13:canon:%s::to_slice" % ap, "%s::to_slice does not encode U256::from(self)" % ap, b.file_line(), b.rec["path"], sample={"fn": ap + "::to_slice"})
-        # the conversion itself: Montgomery multiplication by the integer one with the type's own modulus
-        cpath = "crate::fields::fp::<impl core::convert::From<%s> for crate::u256::U256>::from" % ap
-        c = F.bodies.get(cpath)
+        c = None
+        for b in F.fn_bodies():
+            if b.name == "from" and b.impl_trait == "core::convert::From" and tuple(b.rec.get("inputs") or ()) == (ap,) and b.rec.get("output") == U256:
+                c = b
         R.instance()
         if c is None:
-            R.fail_closed("C13:canon:%s:conv" % ap, "%s not found" % cpath)
+            R.fail_closed("C13:canon:%s:conv" % ap, "From<%s> for U256 not found" % ap)
             continue
         rv = repo.tb(c).return_value()
         ok = False
         x = rv
-        if x[0] == "mutcall" and x[1].d == "crate::u256::U256::mul":
-            ok = strip(x[2][0]) == ("field", ("param", 1), 0) and strip(x[2][1])[0] == "call" and strip(x[2][1])[1].d == "crate::u256::U256::one" and repo.static_of(x[2][2]) == fp[ap]["modulus"]
-        R.check(ok, "C13:canon:%s:conv" % ap, "U256::from(%s) is not a Montgomery multiplication by 1 modulo its own modulus: %s" % (ap, show(rv, maxdepth=4)[:200]), c.file_line(), cpath,
+        if x[0] == "mutcall" and (x[1].d == "crate::u256::U256::mul" or (closed.get(x[1].d) or {}).get("role") == "mul"):
+            ok = strip(x[2][0]) == ("field", ("param", 1), 0) and strip(x[2][1])[0] == "call" and strip(x[2][1])[1].name == "one" and not strip(x[2][1])[2] and repo.static_of(x[2][2]) == fp[ap]["modulus"]
+        R.check(ok, "C13:canon:%s:conv" % ap, "U256::from(%s) is not a Montgomery multiplication by 1 modulo its own modulus: %s" % (ap, show(rv, maxdepth=4)[:200]), c.file_line(), c.rec["path"],
                 sample={"conversion": show(rv, maxdepth=3)[:160]})
-    for w, inner in (("crate::Fq::to_big_endian", "into_u256"), ("crate::Fq::is_even", "into_u256"), ("crate::Fq::to_slice", None), ("crate::Fr::to_slice", None)):
-        b = F.bodies.get(w)
-        R.instance()
-        if b is None:
-            R.fail_closed("C13:canon:%s" % w, "%s not found" % w)
-            continue
-        names = [(t.get("fn") or {}).get("name") for _, t in b.calls()]
-        good = ("into_u256" in names) or ("to_slice" in names) or ("into" in names)
-        R.check(good, "C13:canon:%s" % w, "%s does not go through the canonical conversion (calls %s)" % (w, names), b.file_line(), w, sample={"fn": w, "calls": names})
-    b = F.bodies.get("crate::Fq::into_u256")
-    R.instance()
-    if b is None:
-        R.fail_closed("C13:canon:into_u256", "Fq::into_u256 not found")
-    else:
-        rv = repo.tb(b).return_value()
-        R.check(shared.is_canon_conv(rv, "crate::fields::fp::Fq") == ("field", ("param", 1), 0), "C13:canon:crate::Fq::into_u256",
-                "Fq::into_u256 is not U256::from(self.0): %s" % show(rv, maxdepth=3), b.file_line(), b.rec["path"], sample={"into_u256": show(rv, maxdepth=3)[:120]})
     return R.finish()
 
 
@@ -370,7 +204,7 @@ def run(ctx):
     results_dev = None
     for cfg in ("dev", "rel"):
         repo = Repo(ctx.facts(cfg))
-        ls = convert.make_lensim(repo)
+        ls = convert.make_conv(repo)
         r, results = convert.rule_accept("C13", repo, ls, SPEC, cfg)
         r.rid = "R-LEN-PART[%s]" % cfg
         r.desc = "length partition of every byte conversion: accepted lengths, and lengths on which rejection is impossible"
@@ -379,18 +213,20 @@ def run(ctx):
         if cfg == "dev":
             results_dev = results
             rules.append(rule_siblings(results))
-            rules.append(rule_padding(repo))
-            rules.append(rule_hash(repo))
+            rules.append(convert.rule_value_shape("C13", repo, ls, VALUE_ENTRIES))
+            rules.append(convert.rule_hash("C13", repo, ls, ["crate::fields::fp::Fr::from_hash", "crate::Fr::from_hash"]))
             rules.append(rule_str(repo))
             rules.append(rule_setbit(repo))
-            rules.append(rule_be_layout(repo, ls))
-            rules.append(rule_canon_out(repo))
-            rules.append(layout.rule_conv_traits("C13", repo))
+            rules.append(convert.rule_scalar_encoders("C13", repo, ls))
+            rules.append(convert.rule_is_even("C13", repo, ls))
+            rules.append(rule_canon_conv(repo))
+            rules.append(convert.rule_conv_traits("C13", repo, ls))
             rules.append(profile.rule_int_total("C13", repo, ["crate::Fr::set_bit", "crate::fields::fp::Fr::set_bit", "crate::fields::fp::Fq::set_bit", "crate::u256::U256::set_bit", "crate::u256::U256::get_bit"]))
     return report.emit(
         "C13", ctx.tier, ctx.seed, rules, ctx.started,
-        "Value-set analysis of every byte/hash conversion over the complete length partition (both profiles): accepted lengths, lengths on which rejection is "
-        "impossible, no reachable panic; Fr/Fq sibling agreement; big-endian padding and limb layout (literal iterator unrolled); from_hash divisor = canonical(−1) and +1; "
-        "decimal parser stops at the first non-digit with radix 10; set_bit acts on the canonical value and re-reduces; outputs go through the Montgomery→canonical conversion.",
+        "Byte-provenance abstract execution of every byte/hash conversion over the complete length partition (both profiles): accepted lengths, lengths on which rejection is "
+        "impossible, no reachable panic; Fr/Fq sibling agreement; the value term of every successful path is the big-endian integer of the zero-left-padded input, range-checked / "
+        "reduced as its length class requires; from_hash = (padded input mod canonical(−1)) + 1; decimal parser stops at the first non-digit with radix 10; set_bit acts on the "
+        "canonical value and re-reduces; every emitted byte is a byte of the big-endian image of U256::from(self).",
         shared.ASSUMPTIONS + ["ark_ff BigInt::to_bytes_be yields 8·N big-endian bytes", "byteorder::BigEndian::read_u64 semantics"],
         ["numerical correctness of divrem / Montgomery conversion / the decimal accumulation; that Fr::new(remainder by r−1) is never None (numerical)"])
